@@ -4,6 +4,9 @@ import (
 	"fmt"
 	"go/token"
 	"go/types"
+	"sort"
+	"strconv"
+	"strings"
 
 	"golang.org/x/tools/go/ssa"
 )
@@ -168,4 +171,1161 @@ func isByteAccumulator(v ssa.Value, f *ssa.Function, seen map[ssa.Value]bool) bo
 		}
 	}
 	return false
+}
+
+// checkDeadlineHandleStaysPollable: Drain and Stop get the input loop out of a blocked Read by setting
+// a read deadline of "now" on the handle.  That only works while the runtime poller manages the
+// descriptor; (*os.File).Fd switches it to blocking mode for good, after which a deadline no longer
+// interrupts a Read and Suspend/Fini wait for the next key.  For every Tty implementation that opens
+// its own handle (os.OpenFile stored into the field Read uses) and relies on a deadline on it: nobody
+// calls Fd on that handle — the descriptor for termios calls comes from a second handle.
+func checkDeadlineHandleStaysPollable(c *Ctx, p *Prog, rule string) {
+	for _, tname := range []string{"devTty", "stdIoTty"} {
+		owner := "tcell." + tname
+		rd := p.Fn("tcell:(*" + tname + ").Read")
+		if rd == nil {
+			if p.namedType(p.Tcell, tname) != nil {
+				c.Undecided(rule, tname+":deadline-handle", "-", "Read not found")
+			}
+			continue
+		}
+		handle := ""
+		eachInstr(rd, func(in ssa.Instruction) {
+			if cc := callCommon(in); cc != nil && calleeName(cc) == "(*os.File).Read" && len(cc.Args) > 0 {
+				if ref, _, ok := loadedField(cc.Args[0]); ok && ref.Owner == owner {
+					handle = ref.Name
+				}
+			}
+		})
+		key := tname + ":deadline-handle-stays-pollable"
+		if handle == "" {
+			c.Undecided(rule, key, p.pos(rd.Pos()), "the file handle Read uses was not identified")
+			continue
+		}
+		// what is stored into the handle, and whether a deadline is set on it
+		stored := map[ssa.Value]bool{}
+		opened, deadline := false, false
+		for _, fn := range p.modFns {
+			if fn.Pkg != p.Tcell {
+				continue
+			}
+			eachInstr(fn, func(in ssa.Instruction) {
+				if st, ok := in.(*ssa.Store); ok {
+					if ref, _, okR := fieldAddrRef(st.Addr); okR && ref.Owner == owner && ref.Name == handle {
+						stored[st.Val] = true
+						if ex, isEx := st.Val.(*ssa.Extract); isEx {
+							if call, isCall := ex.Tuple.(*ssa.Call); isCall && (calleeName(&call.Call) == "os.OpenFile" || calleeName(&call.Call) == "os.Open") {
+								opened = true
+							}
+						}
+					}
+				}
+				if cc := callCommon(in); cc != nil && calleeName(cc) == "(*os.File).SetReadDeadline" && len(cc.Args) == 2 && !isZeroValue(cc.Args[1]) {
+					if ref, _, ok := loadedField(cc.Args[0]); ok && ref.Owner == owner && ref.Name == handle {
+						deadline = true
+					}
+				}
+			})
+		}
+		if !opened || !deadline {
+			c.Trivial(rule, key, p.pos(rd.Pos()), fmt.Sprintf("%s.%s: opened by the implementation: %v, woken by a deadline: %v (a handle that is handed in, like stdin, has no other way to its descriptor)", tname, handle, opened, deadline))
+			continue
+		}
+		bad := ""
+		for _, fn := range p.modFns {
+			if fn.Pkg != p.Tcell {
+				continue
+			}
+			eachInstr(fn, func(in ssa.Instruction) {
+				cc := callCommon(in)
+				if cc == nil || calleeName(cc) != "(*os.File).Fd" || len(cc.Args) != 1 {
+					return
+				}
+				recv := cc.Args[0]
+				if ref, _, ok := loadedField(recv); (ok && ref.Owner == owner && ref.Name == handle) || stored[recv] {
+					bad += "Fd() on the handle at " + p.pos(in.Pos()) + " switches it to blocking mode; "
+				}
+			})
+		}
+		c.Check(bad == "", rule, key, p.pos(rd.Pos()), fmt.Sprintf("%s.%s is opened by Start and woken by a read deadline; nothing takes its descriptor out of the poller %s", tname, handle, bad))
+	}
+}
+
+// popKind: v is the first result of a pop of the interpreter's stack — a method of package terminfo
+// that returns (T, <its receiver type>) — and T is int ("int"), string ("string") or anything else
+// ("raw": the element as it was pushed).
+func popKind(p *Prog, v ssa.Value) string {
+	ex, ok := v.(*ssa.Extract)
+	if !ok || ex.Index != 0 {
+		return ""
+	}
+	call, ok := ex.Tuple.(*ssa.Call)
+	if !ok {
+		return ""
+	}
+	f := call.Call.StaticCallee()
+	if f == nil || f.Pkg != p.Terminfo || f.Signature.Recv() == nil || f.Signature.Results().Len() != 2 {
+		return ""
+	}
+	if !types.Identical(f.Signature.Results().At(1).Type(), f.Signature.Recv().Type()) {
+		return ""
+	}
+	if b, isB := f.Signature.Results().At(0).Type().Underlying().(*types.Basic); isB {
+		switch {
+		case b.Info()&types.IsInteger != 0:
+			return "int"
+		case b.Kind() == types.String:
+			return "string"
+		}
+	}
+	return "raw"
+}
+
+// checkFormattedOperandCoerced: a printf-style conversion hands fmt an operand of the type the
+// conversion byte asks for: %d %x %X %o %c get the element popped as a number, %s gets it popped as a
+// string.  The stack holds ints and strings side by side (%P stores everything as a string, parameters
+// may be either), so the element as it was pushed makes fmt print `%!d(string=7)`.
+func checkFormattedOperandCoerced(c *Ctx, p *Prog, rule string) {
+	fn := p.Fn("terminfo:(*Terminfo).TParm")
+	if fn == nil {
+		c.Undecided(rule, "TParm", "-", "not found")
+		return
+	}
+	n := 0
+	for _, d := range deepInstrs(p, fn, 1, nil) {
+		cc := callCommon(d.in)
+		if cc == nil || calleeName(cc) != "fmt.Sprintf" || len(cc.Args) != 2 {
+			continue
+		}
+		// the variadic operands: stores into the backing array of the slice
+		sl, ok := cc.Args[1].(*ssa.Slice)
+		if !ok {
+			continue
+		}
+		al, ok := sl.X.(*ssa.Alloc)
+		if !ok {
+			continue
+		}
+		var ops []ssa.Value
+		for _, r := range referrers(al) {
+			if ia, isIA := r.(*ssa.IndexAddr); isIA {
+				for _, r2 := range referrers(ia) {
+					if st, isSt := r2.(*ssa.Store); isSt {
+						ops = append(ops, st.Val)
+					}
+				}
+			}
+		}
+		n++
+		key := fmt.Sprintf("TParm:formatted#%d", n)
+		if len(ops) != 1 {
+			c.Fail(rule, key, p.pos(d.in.Pos()), fmt.Sprintf("%d operands handed to fmt, expected the one popped", len(ops)))
+			continue
+		}
+		x := ops[0]
+		if mi, isMI := x.(*ssa.MakeInterface); isMI {
+			x = mi.X
+		}
+		kind := popKind(p, x)
+		// which conversion bytes lead here
+		isS := false
+		for _, g := range rawGuardsAt(d.in.Block()) {
+			if bo, isBO := g.Cond.(*ssa.BinOp); isBO && bo.Op == token.EQL && g.Positive {
+				if k, isK := constInt(bo.Y); isK && k == 's' {
+					isS = true
+				}
+			}
+		}
+		switch {
+		case kind == "string" && isS:
+			c.OK(rule, key, p.pos(d.in.Pos()), "%s formats the element popped as a string")
+		case kind == "int" && !isS:
+			c.OK(rule, key, p.pos(d.in.Pos()), "a numeric conversion formats the element popped as a number")
+		case kind == "":
+			c.Fail(rule, key, p.pos(d.in.Pos()), "the operand handed to fmt is not a coerced pop: "+valName(x))
+		default:
+			c.Fail(rule, key, p.pos(d.in.Pos()), fmt.Sprintf("the operand is popped as %s (under the %%s case: %v): fmt prints a mismatch as %%!verb(type=value)", kind, isS))
+		}
+	}
+	if n == 0 {
+		c.Undecided(rule, "TParm:formatted", p.pos(fn.Pos()), "no fmt.Sprintf call found in the interpreter")
+	}
+}
+
+// transformerRole: what v is, followed through interface conversions, phis and module helpers that
+// return it: "enc" for the result of an encoding's NewEncoder, "dec" for NewDecoder, "nil" for a nil
+// constant, "" for anything else; "mixed" when the ways disagree.
+func transformerRole(v ssa.Value, depth int) string {
+	switch x := v.(type) {
+	case *ssa.MakeInterface:
+		return transformerRole(x.X, depth)
+	case *ssa.ChangeInterface:
+		return transformerRole(x.X, depth)
+	case *ssa.ChangeType:
+		return transformerRole(x.X, depth)
+	case *ssa.Const:
+		if x.IsNil() {
+			return "nil"
+		}
+	case *ssa.Call:
+		if x.Call.IsInvoke() {
+			switch x.Call.Method.Name() {
+			case "NewEncoder":
+				return "enc"
+			case "NewDecoder":
+				return "dec"
+			}
+			return ""
+		}
+		if h := x.Call.StaticCallee(); h != nil && depth < 3 && len(h.Blocks) > 0 && h.Signature.Results().Len() == 1 {
+			return joinRoles(h, 0, depth)
+		}
+	case *ssa.Extract:
+		if call, ok := x.Tuple.(*ssa.Call); ok && !call.Call.IsInvoke() {
+			if h := call.Call.StaticCallee(); h != nil && depth < 3 && len(h.Blocks) > 0 {
+				return joinRoles(h, x.Index, depth)
+			}
+		}
+	case *ssa.Phi:
+		role := "nil"
+		for _, e := range x.Edges {
+			r := transformerRole(e, depth+1)
+			switch {
+			case r == "nil":
+			case role == "nil":
+				role = r
+			case role != r:
+				return "mixed"
+			}
+		}
+		return role
+	}
+	return ""
+}
+
+func joinRoles(h *ssa.Function, idx int, depth int) string {
+	role := "nil"
+	for _, r := range returnsOf(h) {
+		if idx >= len(r.Results) {
+			return ""
+		}
+		x := transformerRole(r.Results[idx], depth+1)
+		switch {
+		case x == "nil":
+		case role == "nil":
+			role = x
+		case role != x:
+			return "mixed"
+		}
+	}
+	return role
+}
+
+// checkTransformersNotSwapped: what a screen keeps as its encoder comes from NewEncoder of the
+// character set's encoding, what it keeps as its decoder from NewDecoder — at every place the fields
+// are assigned (Init today; a Resume that renews them must do the same).  Both have the same static
+// type, so the compiler accepts them the wrong way round.
+func checkTransformersNotSwapped(c *Ctx, p *Prog, rule string) {
+	n := 0
+	for _, f := range p.modFns {
+		if f.Pkg != p.Tcell {
+			continue
+		}
+		eachInstr(f, func(in ssa.Instruction) {
+			st, ok := in.(*ssa.Store)
+			if !ok {
+				return
+			}
+			ref, _, isF := fieldAddrRef(st.Addr)
+			if !isF || (ref.Name != "encoder" && ref.Name != "decoder") || !strings.HasPrefix(ref.Owner, "tcell.") {
+				return
+			}
+			n++
+			want := "enc"
+			if ref.Name == "decoder" {
+				want = "dec"
+			}
+			got := transformerRole(st.Val, 0)
+			key := fmt.Sprintf("%s.%s@%s", strings.TrimPrefix(ref.Owner, "tcell."), ref.Name, topFunc(f).Name())
+			c.Check(got == want || got == "nil", rule, key, p.pos(st.Pos()), fmt.Sprintf("the value stored is the encoding's %q transformer (want %q)", got, want))
+		})
+	}
+	if n == 0 {
+		c.Undecided(rule, "encoder/decoder", "-", "no assignment of a screen's encoder or decoder found")
+	}
+}
+
+// checkParsersTriedOnExpiry: in the collect loop a parser may be held back while some other parser says
+// that more input could still complete a key (a focus report is the start of rxvt's Ctrl-arrow keys) —
+// but not once the wait is over: a parser call that sits behind a test of the pending-counter alone is
+// never reached on expiry while something is pending, and the report falls to the byte-by-byte
+// fallback.  For every parser call: no dominating condition compares a loop-carried counter with zero
+// (the clean form `partials == 0 || expire` does not dominate: the call is reached from both tests).
+func checkParsersTriedOnExpiry(c *Ctx, p *Prog, rule string) {
+	fn := collectLoopFn(p)
+	if fn == nil {
+		c.Undecided(rule, "collect loop", "-", "not found")
+		return
+	}
+	isCounter := func(v ssa.Value) bool {
+		phi, ok := v.(*ssa.Phi)
+		if !ok {
+			return false
+		}
+		if b, isB := phi.Type().Underlying().(*types.Basic); !isB || b.Info()&types.IsInteger == 0 {
+			return false
+		}
+		for _, src := range phiSources(phi) {
+			if add, isAdd := src.(*ssa.BinOp); isAdd && add.Op == token.ADD {
+				if k, isK := constInt(add.Y); isK && k == 1 {
+					return true
+				}
+			}
+		}
+		return false
+	}
+	n := 0
+	eachInstr(fn, func(in ssa.Instruction) {
+		call, ok := in.(*ssa.Call)
+		if !ok {
+			return
+		}
+		h := call.Call.StaticCallee()
+		if h == nil || !isParserSig(h) {
+			return
+		}
+		n++
+		bad := ""
+		for _, g := range rawGuardsAt(call.Block()) {
+			bo, isBO := g.Cond.(*ssa.BinOp)
+			if !isBO || !isCounter(bo.X) {
+				continue
+			}
+			if k, isK := constInt(bo.Y); !isK || k != 0 {
+				continue
+			}
+			if (bo.Op == token.EQL && g.Positive) || (bo.Op == token.NEQ && !g.Positive) || (bo.Op == token.GTR && !g.Positive) || (bo.Op == token.LEQ && g.Positive) {
+				bad = "only tried while nothing is pending (" + valName(bo.X) + " == 0), also when the wait is over"
+			}
+		}
+		c.Check(bad == "", rule, "collect:"+h.Name()+":tried-on-expiry", p.pos(call.Pos()), "the parser call is not behind a test of the pending-counter alone "+bad)
+	})
+	if n == 0 {
+		c.Undecided(rule, "collect:parser-calls", p.pos(fn.Pos()), "no parser call found")
+	}
+}
+
+// checkForceDirtyEntries: which calls of the application can force cells to be repainted although
+// their content did not change.  Every force-dirty site (Invalidate, SetDirty(…, true), UnlockCell,
+// Resize of the cell buffer) in the screen's own code is attributed to the entry points (exported
+// methods and the main loop) that reach it through static calls.  Entry points whose contract is a
+// repaint are listed with the reason; a site reached from any other entry point must sit behind a test
+// that the value being set differs from the one in force — `param != t.field` for the very field the
+// function assigns the parameter to — or every such call repaints unchanged cells at the next Show.
+func checkForceDirtyEntries(c *Ctx, p *Prog, rule, tname string) {
+	owner := "tcell." + tname
+	allowed := map[string]string{
+		"Show":       "decided by C13-R2 (behind the size-changed test, or a documented neighbour site)",
+		"Sync":       "repaints everything by contract",
+		"Init":       "a fresh terminal",
+		"Resume":     "the terminal was handed back in between: everything is repainted",
+		"Suspend":    "the buffer is emptied while the terminal is handed back",
+		"Fini":       "the buffer is emptied",
+		"LockRegion": "an unlocked region is repainted (the property's last clause; C13-R4)",
+		"mainLoop":   "a size report from the terminal",
+		"SetSize":    "the terminal is asked for another size",
+	}
+	var entries []*ssa.Function
+	for _, f := range p.modFns {
+		if f.Pkg != p.Tcell || f.Parent() != nil || recvTypeName(f) != owner {
+			continue
+		}
+		if ast := f.Object(); ast != nil && (ast.Exported() || f.Name() == "mainLoop" || f.Name() == "inputLoop") {
+			entries = append(entries, f)
+		}
+	}
+	reachOf := map[*ssa.Function]map[*ssa.Function]bool{}
+	for _, e := range entries {
+		r := map[*ssa.Function]bool{}
+		var walk func(f *ssa.Function)
+		walk = func(f *ssa.Function) {
+			if f == nil || r[f] || f.Pkg != p.Tcell || recvTypeName(topFunc(f)) == "tcell.CellBuffer" {
+				return
+			}
+			r[f] = true
+			eachInstr(f, func(in ssa.Instruction) {
+				if cc := callCommon(in); cc != nil {
+					walk(staticCallee(cc))
+				}
+				// closures made here run on behalf of this function
+				if mc, ok := in.(*ssa.MakeClosure); ok {
+					if fn, isFn := mc.Fn.(*ssa.Function); isFn {
+						walk(fn)
+					}
+				}
+			})
+		}
+		walk(e)
+		reachOf[e] = r
+	}
+	n := 0
+	for _, f := range p.modFns {
+		if f.Pkg != p.Tcell || recvTypeName(topFunc(f)) != owner {
+			continue
+		}
+		k := 0
+		eachInstr(f, func(in ssa.Instruction) {
+			cc := callCommon(in)
+			if cc == nil {
+				return
+			}
+			name := calleeName(cc)
+			kind := ""
+			switch {
+			case strings.HasSuffix(name, "CellBuffer).Invalidate"):
+				kind = "Invalidate"
+			case strings.HasSuffix(name, "CellBuffer).Resize"):
+				kind = "Resize"
+			case strings.HasSuffix(name, "CellBuffer).SetDirty") && len(cc.Args) == 4:
+				if v, ok := constBool(cc.Args[3]); !ok || v {
+					kind = "SetDirty(true)"
+				}
+			case strings.HasSuffix(name, "CellBuffer).UnlockCell"):
+				kind = "UnlockCell"
+			}
+			if kind == "" {
+				return
+			}
+			n++
+			k++
+			key := fmt.Sprintf("%s:%s#%d", f.RelString(p.Tcell.Pkg), kind, k)
+			var from, foreign []string
+			for _, e := range entries {
+				if reachOf[e][f] {
+					from = append(from, e.Name())
+					if _, ok := allowed[e.Name()]; !ok {
+						foreign = append(foreign, e.Name())
+					}
+				}
+			}
+			sort.Strings(from)
+			if len(foreign) == 0 {
+				c.OK(rule, key, p.pos(in.Pos()), fmt.Sprintf("reached from %v only, each of which repaints by contract", from))
+				return
+			}
+			// a setter: behind `param != t.field` for the field the parameter is stored in
+			ok := false
+			if top := topFunc(f); len(foreign) == 1 && top.Name() == foreign[0] && top == f {
+				for _, g := range rawGuardsAt(in.Block()) {
+					bo, isBO := g.Cond.(*ssa.BinOp)
+					if !isBO || !((bo.Op == token.NEQ && g.Positive) || (bo.Op == token.EQL && !g.Positive)) {
+						continue
+					}
+					for _, pair := range [][2]ssa.Value{{bo.X, bo.Y}, {bo.Y, bo.X}} {
+						par, isPar := derefCell(pair[0]).(*ssa.Parameter)
+						ref, _, isF := loadedField(pair[1])
+						if !isPar || !isF || ref.Owner != owner {
+							continue
+						}
+						// … and that field receives the parameter
+						eachInstr(f, func(in2 ssa.Instruction) {
+							if st, isSt := in2.(*ssa.Store); isSt {
+								if r2, _, isF2 := fieldAddrRef(st.Addr); isF2 && r2 == ref && derefCell(st.Val) == ssa.Value(par) {
+									ok = true
+								}
+							}
+						})
+					}
+				}
+			}
+			c.Check(ok, rule, key, p.pos(in.Pos()), fmt.Sprintf("reached from %v; %v do(es) not repaint by contract, and the site is not behind a test that the value being set differs from the one in force: the next Show rewrites cells that did not change", from, foreign))
+		})
+	}
+	if n == 0 {
+		c.Undecided(rule, tname+":force-dirty-sites", "-", "no force-dirty site found")
+	}
+}
+
+// checkCellLoopGate: Show looks at every cell on every pass; whether a cell is painted is decided per
+// cell (Dirty).  A shortcut that skips the whole loop behind a flag ("nothing was stored since the last
+// pass") is only right if everything that can make a cell dirty raises the flag.  The guards on the way
+// from draw to the drawCell calls are collected (through the helper that holds the loop, if any); for
+// every one that is a boolean field other than the running/finished state, every function of the
+// package that stores the force-dirty marker (lastMain = 0), clears a lock or stores cell content must
+// also store true into that field.
+func checkCellLoopGate(c *Ctx, p *Prog, rule, tname string) {
+	draw := p.Fn("tcell:(*" + tname + ").draw")
+	dc := p.Fn("tcell:(*" + tname + ").drawCell")
+	if draw == nil || dc == nil {
+		c.Undecided(rule, tname+".draw:cell-loop-gate", "-", "draw or drawCell not found")
+		return
+	}
+	// the guards above the drawCell calls, up to draw
+	var gates []rawGuard
+	found := false
+	var collect func(f *ssa.Function, depth int)
+	collect = func(f *ssa.Function, depth int) {
+		eachInstr(f, func(in ssa.Instruction) {
+			cc := callCommon(in)
+			if cc == nil {
+				return
+			}
+			h := cc.StaticCallee()
+			if h == dc {
+				found = true
+				gates = append(gates, rawGuardsAt(in.Block())...)
+				return
+			}
+			if h != nil && depth < 2 && h.Pkg == p.Tcell && recvTypeName(h) == "tcell."+tname && reachesStatically(h, dc, 2) {
+				gates = append(gates, rawGuardsAt(in.Block())...)
+				collect(h, depth+1)
+			}
+		})
+	}
+	collect(draw, 0)
+	if !found {
+		c.Undecided(rule, tname+".draw:cell-loop-gate", p.pos(draw.Pos()), "no call of drawCell found below draw")
+		return
+	}
+	type flag struct{ owner, name string }
+	flags := map[flag]bool{}
+	for _, g := range gates {
+		cond := g.Cond
+		for {
+			if u, ok := cond.(*ssa.UnOp); ok && u.Op == token.NOT {
+				cond = u.X
+				continue
+			}
+			break
+		}
+		ref, _, ok := loadedField(cond)
+		if !ok {
+			continue
+		}
+		if b, isB := cond.Type().Underlying().(*types.Basic); !isB || b.Kind() != types.Bool {
+			continue
+		}
+		if ref.Name == "running" || ref.Name == "fini" {
+			continue
+		}
+		flags[flag{ref.Owner, ref.Name}] = true
+	}
+	if len(flags) == 0 {
+		c.OK(rule, tname+".draw:cell-loop-gate", p.pos(draw.Pos()), "the cell loop runs on every pass of a running screen: no flag stands between draw and drawCell")
+		return
+	}
+	for fl := range flags {
+		bad := ""
+		for _, f := range p.modFns {
+			if f.Pkg != p.Tcell {
+				continue
+			}
+			dirties := ""
+			for _, st := range storesTo(f, "tcell.cell", "lastMain") {
+				if k, ok := constInt(st.Val); ok && k == 0 {
+					dirties = "stores the force-dirty marker"
+				}
+			}
+			for _, st := range storesTo(f, "tcell.cell", "lock") {
+				if v, ok := constBool(st.Val); ok && !v {
+					dirties = "clears a lock"
+				}
+			}
+			for _, fld := range []string{"currMain", "currStyle", "currComb"} {
+				if len(storesTo(f, "tcell.cell", fld)) > 0 && dirties == "" {
+					dirties = "stores cell content"
+				}
+			}
+			if dirties == "" {
+				continue
+			}
+			raised := false
+			for _, st := range storesTo(f, fl.owner, fl.name) {
+				if v, ok := constBool(st.Val); ok && v {
+					raised = true
+				}
+			}
+			if !raised {
+				bad += f.RelString(p.Tcell.Pkg) + " " + dirties + " without raising it; "
+			}
+		}
+		c.Check(bad == "", rule, tname+".draw:cell-loop-gate:"+fl.name, p.pos(draw.Pos()), fmt.Sprintf("the cell loop is skipped unless %s.%s is set: %s", fl.owner, fl.name, bad))
+	}
+}
+
+// reachesStatically: g is reachable from f through static calls (to the given depth).
+func reachesStatically(f, g *ssa.Function, depth int) bool {
+	if f == g {
+		return true
+	}
+	if depth == 0 || f == nil || len(f.Blocks) == 0 {
+		return false
+	}
+	hit := false
+	eachInstr(f, func(in ssa.Instruction) {
+		if cc := callCommon(in); cc != nil && !hit {
+			if h := cc.StaticCallee(); h != nil && h.Pkg == f.Pkg && reachesStatically(h, g, depth-1) {
+				hit = true
+			}
+		}
+	})
+	return hit
+}
+
+// checkSynth256Unconditional: NAME-256color for a known base always gets the standard 256-colour
+// strings: the block of LookupTerminfo that sets Colors = 256 depends on the name alone (the suffix was
+// stripped and a base found), never on what the base entry contains — a base that already counts 256
+// colours may still have strings of its own (sun-color).
+func checkSynth256Unconditional(c *Ctx, p *Prog, rule string) {
+	fn := p.Fn("terminfo:LookupTerminfo")
+	if fn == nil {
+		c.Undecided(rule, "LookupTerminfo", "-", "not found")
+		return
+	}
+	var readsEntry func(v ssa.Value, d int) string
+	readsEntry = func(v ssa.Value, d int) string {
+		if d < 0 || v == nil {
+			return ""
+		}
+		if ref, _, ok := loadedField(v); ok && ref.Owner == "terminfo.Terminfo" {
+			return ref.Name
+		}
+		if _, isPhi := v.(*ssa.Phi); isPhi {
+			return ""
+		}
+		if in, ok := v.(ssa.Instruction); ok {
+			for _, op := range in.Operands(nil) {
+				if *op != nil {
+					if s := readsEntry(*op, d-1); s != "" {
+						return s
+					}
+				}
+			}
+		}
+		return ""
+	}
+	n := 0
+	// the store may sit in a helper (`with256Color(t)`): then the guards at its calls count as well
+	type site struct {
+		st     *ssa.Store
+		guards []rawGuard
+	}
+	var sites []site
+	for _, st := range storesTo(fn, "terminfo.Terminfo", "Colors") {
+		sites = append(sites, site{st, rawGuardsAt(st.Block())})
+	}
+	eachInstr(fn, func(in ssa.Instruction) {
+		cc := callCommon(in)
+		if cc == nil {
+			return
+		}
+		h := cc.StaticCallee()
+		if h == nil || h == fn || h.Pkg != p.Terminfo || len(h.Blocks) == 0 {
+			return
+		}
+		for _, st := range storesTo(h, "terminfo.Terminfo", "Colors") {
+			sites = append(sites, site{st, append(append([]rawGuard{}, rawGuardsAt(st.Block())...), rawGuardsAt(in.Block())...)})
+		}
+	})
+	for _, s := range sites {
+		st := s.st
+		if k, ok := constInt(st.Val); !ok || k != 256 {
+			continue
+		}
+		n++
+		bad := ""
+		for _, g := range s.guards {
+			if f := readsEntry(g.Cond, 4); f != "" {
+				// the "was anything found" test on the entry pointer itself is not a field read
+				bad += "depends on the base entry's " + f + "; "
+			}
+		}
+		c.Check(bad == "", rule, fmt.Sprintf("LookupTerminfo:256-colour-synthesis#%d", n), p.pos(st.Pos()), "the standard 256-colour strings are supplied whenever the -256color suffix was resolved "+bad)
+	}
+	if n == 0 {
+		c.Undecided(rule, "LookupTerminfo:256-colour-synthesis", p.pos(fn.Pos()), "no store of Colors = 256 found")
+	}
+}
+
+// checkNoReRegistration: what LookupTerminfo returned is never handed back to AddTerminfo: a lookup
+// may return a private amended copy (256 colours, direct colour) that still carries the base entry's
+// name and aliases; registering it replaces the shared base entry, and what later lookups return then
+// depends on which names were looked up before.  Every AddTerminfo argument in the module is followed
+// back through phis: none of its sources is a result of terminfo.LookupTerminfo.
+func checkNoReRegistration(c *Ctx, p *Prog, rule string) {
+	add := p.Fn("terminfo:AddTerminfo")
+	lookup := p.Fn("terminfo:LookupTerminfo")
+	if add == nil || lookup == nil {
+		c.Undecided(rule, "AddTerminfo/LookupTerminfo", "-", "not found")
+		return
+	}
+	n := 0
+	for _, f := range p.modFns {
+		if f.Pkg == nil || f.Pkg == p.Terminfo {
+			continue
+		}
+		k := 0
+		eachInstr(f, func(in ssa.Instruction) {
+			cc := callCommon(in)
+			if cc == nil || add == nil || cc.StaticCallee() != add || len(cc.Args) != 1 {
+				return
+			}
+			// database packages register composite literals from init: not interesting
+			if _, isAlloc := cc.Args[0].(*ssa.Alloc); isAlloc && strings.HasPrefix(f.Name(), "init") {
+				return
+			}
+			n++
+			k++
+			bad := ""
+			for _, src := range append(phiSources(cc.Args[0]), cc.Args[0]) {
+				if ex, ok := derefCell(src).(*ssa.Extract); ok {
+					if call, isCall := ex.Tuple.(*ssa.Call); isCall && call.Call.StaticCallee() == lookup {
+						bad = "registers what terminfo.LookupTerminfo returned at " + p.pos(call.Pos())
+					}
+				}
+			}
+			c.Check(bad == "", rule, fmt.Sprintf("%s:AddTerminfo#%d", f.RelString(f.Pkg.Pkg), k), p.pos(in.Pos()), "the entry registered does not come out of a lookup "+bad)
+		})
+	}
+	if n == 0 {
+		c.Trivial(rule, "AddTerminfo:outside-the-database", "-", "nothing outside package terminfo and the database packages registers entries")
+	}
+}
+
+// isDecimalOf: v is the decimal form of x by a standard formatter: strconv.Itoa(x),
+// strconv.FormatInt(int64(x), 10), fmt.Sprint(x) or fmt.Sprintf("%d", x).
+func isDecimalOf(v ssa.Value, isX func(ssa.Value) bool) bool {
+	call, ok := v.(*ssa.Call)
+	if !ok {
+		return false
+	}
+	switch calleeName(&call.Call) {
+	case "strconv.Itoa":
+		return len(call.Call.Args) == 1 && isX(stripConv(call.Call.Args[0]))
+	case "strconv.FormatInt":
+		if len(call.Call.Args) == 2 && isX(stripConv(call.Call.Args[0])) {
+			k, isK := constInt(call.Call.Args[1])
+			return isK && k == 10
+		}
+	}
+	return false
+}
+
+// checkDecimalOutput: %d writes the decimal form of the number it pops — cursor positions and palette
+// indexes go out through it.  The case either hands strconv's decimal form of the popped number to the
+// output, or calls a helper of its own; such a helper is decided by constant evaluation (T18) for every
+// number from -1000 to 70000 (all screen coordinates, all palette indexes and SGR codes): the bytes it
+// writes, through whatever branches it takes, are compared with the decimal form.
+func checkDecimalOutput(c *Ctx, p *Prog, rule string) {
+	fn, dispatch := tparmDispatch(p)
+	key := "op:%d:decimal"
+	if fn == nil || dispatch == nil {
+		c.Undecided(rule, key, "-", "TParm or its dispatch not found")
+		return
+	}
+	var caseIf *ssa.If
+	for _, r := range referrers(dispatch) {
+		if bo, ok := r.(*ssa.BinOp); ok && bo.Op == token.EQL {
+			if k, isK := constInt(bo.Y); isK && k == 'd' {
+				for _, r2 := range referrers(bo) {
+					if iff, isIf := r2.(*ssa.If); isIf {
+						// the operator switch, not the format-conversion switch further down
+						if caseIf == nil || iff.Block().Index < caseIf.Block().Index {
+							caseIf = iff
+						}
+					}
+				}
+			}
+		}
+	}
+	if caseIf == nil {
+		c.Undecided(rule, key, p.pos(fn.Pos()), "no case for %d found")
+		return
+	}
+	body := caseIf.Block().Succs[0]
+	isPopped := func(v ssa.Value) bool { return popKind(p, v) == "int" }
+	verdict, detail := "", "no output in the case"
+	for _, in := range body.Instrs {
+		cc := callCommon(in)
+		if cc == nil {
+			continue
+		}
+		if arg, isStr := p.outputStringArg(cc); isStr {
+			if isDecimalOf(arg, isPopped) {
+				verdict, detail = "ok", "the decimal form of the popped number by strconv"
+			} else {
+				verdict, detail = "fail", "the string written is "+valName(arg)+", not the decimal form of the popped number"
+			}
+			break
+		}
+		if _, isB := p.outputByteArg(cc); isB {
+			verdict, detail = "undecided", "digits written in place: not evaluated"
+			break
+		}
+		h := cc.StaticCallee()
+		if h == nil || h.Pkg != p.Terminfo || len(h.Blocks) == 0 || popKindOfCallee(p, h) {
+			continue
+		}
+		// a helper that gets the popped number
+		var par *ssa.Parameter
+		for i, a := range cc.Args {
+			if isPopped(stripConv(a)) && i < len(h.Params) {
+				par = h.Params[i]
+			}
+		}
+		if par == nil {
+			continue
+		}
+		verdict, detail = evalDecimalHelper(p, h, par)
+		break
+	}
+	switch verdict {
+	case "ok":
+		c.OK(rule, key, p.pos(firstPos(body)), detail)
+	case "fail":
+		c.Fail(rule, key, p.pos(firstPos(body)), detail)
+	default:
+		c.Undecided(rule, key, p.pos(firstPos(body)), detail)
+	}
+}
+
+func popKindOfCallee(p *Prog, h *ssa.Function) bool {
+	return h.Signature.Recv() != nil && h.Signature.Results().Len() == 2 && types.Identical(h.Signature.Results().At(1).Type(), h.Signature.Recv().Type())
+}
+
+// evalDecimalHelper evaluates h with its number parameter set to each value of the domain and
+// compares what it writes with the decimal form.
+func evalDecimalHelper(p *Prog, h *ssa.Function, par *ssa.Parameter) (string, string) {
+	str := func(s string) *cv {
+		out := &cv{kind: cvAgg}
+		for i := 0; i < len(s); i++ {
+			out.elems = append(out.elems, cvI(int64(s[i])))
+		}
+		return out
+	}
+	for n := int64(-1000); n <= 70000; n++ {
+		var written []byte
+		bad := ""
+		ce := &constEval{pk: p.pkg("terminfo"), globals: map[*ssa.Global]*cv{}}
+		ce.onCall = func(cc *ssa.CallCommon, args []*cv) (*cv, bool) {
+			switch calleeName(cc) {
+			case "strconv.Itoa":
+				if len(args) == 1 && args[0].kind == cvInt {
+					return str(strconv.Itoa(int(args[0].i))), true
+				}
+			case "strconv.FormatInt":
+				if len(args) == 2 && args[0].kind == cvInt && args[1].kind == cvInt && args[1].i >= 2 && args[1].i <= 36 {
+					return str(strconv.FormatInt(args[0].i, int(args[1].i))), true
+				}
+			}
+			if _, isB := p.outputByteArg(cc); isB {
+				if len(args) == 2 && args[1].kind == cvInt {
+					written = append(written, byte(args[1].i))
+				} else {
+					bad = "a byte that is not determined by the number"
+				}
+				return cvU, true
+			}
+			if _, isS := p.outputStringArg(cc); isS {
+				if len(args) == 2 && args[1].kind == cvAgg {
+					for _, e := range args[1].elems {
+						if e.kind != cvInt {
+							bad = "a string that is not determined by the number"
+							break
+						}
+						written = append(written, byte(e.i))
+					}
+				} else {
+					bad = "a string that is not determined by the number"
+				}
+				return cvU, true
+			}
+			return nil, false
+		}
+		if _, err := ce.call(p, h, map[*ssa.Parameter]*cv{par: cvI(n)}); err != nil {
+			return "undecided", fmt.Sprintf("%s could not be evaluated for %d: %v", h.Name(), n, err)
+		}
+		if bad != "" {
+			return "undecided", fmt.Sprintf("%s writes %s (for %d)", h.Name(), bad, n)
+		}
+		if string(written) != strconv.Itoa(int(n)) {
+			return "fail", fmt.Sprintf("%s(%d) writes %q, the decimal form is %q", h.Name(), n, written, strconv.Itoa(int(n)))
+		}
+	}
+	return "ok", fmt.Sprintf("%s evaluated for every number from -1000 to 70000: it writes the decimal form", h.Name())
+}
+
+// checkEmptinessTestMatchesReset: drawCell decides "nothing has been written for this cell yet" (and
+// then writes the '?') by looking at the cell's bytes.  A nil test is only right while the bytes are
+// reset to nil: a recycled slice (`Bytes[:0]`, make([]byte, 0, n)) is empty but not nil, so a cell that
+// was painted before never gets its '?'.  Every nil comparison of the cell's byte accumulator in the
+// painter requires that no empty-but-non-nil value is ever stored as a reset; a length test is always
+// fine.
+func checkEmptinessTestMatchesReset(c *Ctx, p *Prog, rule string) {
+	dc := p.Fn("tcell:(*simscreen).drawCell")
+	if dc == nil {
+		c.Undecided(rule, "simscreen.drawCell", "-", "not found")
+		return
+	}
+	fns := []*ssa.Function{dc}
+	if h := transformHost(p, dc); h != dc {
+		fns = append(fns, h)
+	}
+	nilTests, nonNilResets := 0, ""
+	for _, f := range fns {
+		eachInstr(f, func(in ssa.Instruction) {
+			switch x := in.(type) {
+			case *ssa.BinOp:
+				if (x.Op == token.EQL || x.Op == token.NEQ) && isNilConst(x.Y) && isByteAccumulator(x.X, f, map[ssa.Value]bool{}) {
+					if _, isPar := x.X.(*ssa.Parameter); !isPar {
+						nilTests++
+					} else {
+						nilTests++
+					}
+				}
+			case *ssa.Store:
+				ref, _, isF := fieldAddrRef(x.Addr)
+				if !isF || ref.Owner != "tcell.SimCell" || ref.Name != "Bytes" {
+					return
+				}
+				switch v := x.Val.(type) {
+				case *ssa.Slice:
+					if k, ok := constInt(v.High); ok && k == 0 {
+						nonNilResets += "Bytes is reset to an empty reslice at " + p.pos(x.Pos()) + "; "
+					}
+				case *ssa.MakeSlice:
+					if k, ok := constInt(v.Len); ok && k == 0 {
+						nonNilResets += "Bytes is reset to an empty made slice at " + p.pos(x.Pos()) + "; "
+					}
+				}
+			}
+		})
+	}
+	c.Check(nilTests == 0 || nonNilResets == "", rule, "simscreen.drawCell:emptiness-test-matches-reset", p.pos(dc.Pos()), fmt.Sprintf("%d nil test(s) of the cell's bytes; %s", nilTests, nonNilResets))
+}
+
+// checkResizeIntoFreshStorage: SetSize carries the overlapping region over into an array of its own.
+// Moving the cells within the live array is only right for some orders and some size changes (front to
+// back fails as soon as the width grows: a row's cells are overwritten before they are moved), so the
+// destination of every cell store in SetSize must be storage made by this call, never the screen's
+// current array or a reslice of it.
+func checkResizeIntoFreshStorage(c *Ctx, p *Prog, rule string) {
+	fn := p.Fn("tcell:(*simscreen).SetSize")
+	if fn == nil {
+		c.Undecided(rule, "simscreen.SetSize", "-", "not found")
+		return
+	}
+	n, bad := 0, ""
+	eachInstr(fn, func(in ssa.Instruction) {
+		var dst ssa.Value
+		if cc := callCommon(in); cc != nil {
+			// a row moved with the builtin copy
+			if b, isB := cc.Value.(*ssa.Builtin); isB && b.Name() == "copy" && len(cc.Args) == 2 {
+				if sl, isSl := cc.Args[0].Type().Underlying().(*types.Slice); isSl && typeName(sl.Elem()) == "tcell.SimCell" {
+					dst = cc.Args[0]
+				}
+			}
+		}
+		st, _ := in.(*ssa.Store)
+		if st != nil {
+			if ia, ok := st.Addr.(*ssa.IndexAddr); ok {
+				if el, isPtr := ia.Type().Underlying().(*types.Pointer); isPtr && typeName(el.Elem()) == "tcell.SimCell" {
+					dst = ia.X
+				}
+			}
+		}
+		if dst == nil {
+			return
+		}
+		n++
+		for _, src := range append(phiSources(dst), dst) {
+			root := sliceRoot(src)
+			if ref, _, isF := loadedField(root); isF && ref.Owner == "tcell.simscreen" {
+				bad += "cells are stored into (a reslice of) s." + ref.Name + " at " + p.pos(in.Pos()) + "; "
+			}
+		}
+	})
+	c.Check(n > 0 && bad == "", rule, "simscreen.SetSize:overlap-copied-into-fresh-storage", p.pos(fn.Pos()), fmt.Sprintf("%d cell store(s), each into storage made by this call %s", n, bad))
+}
+
+// checkClearImpliesInvalidate: the clear flag makes the next pass wipe the whole display before it
+// paints; a pass paints dirty cells only, so whoever raises the flag must also invalidate the cell
+// buffer on the same path, or everything that was clean disappears.
+func checkClearImpliesInvalidate(c *Ctx, p *Prog, rule, tname string) {
+	owner := "tcell." + tname
+	n := 0
+	for _, f := range p.modFns {
+		if f.Pkg != p.Tcell || recvTypeName(topFunc(f)) != owner {
+			continue
+		}
+		for _, st := range storesTo(f, owner, "clear") {
+			if v, ok := constBool(st.Val); ok && !v {
+				continue
+			}
+			n++
+			paired := false
+			eachInstr(f, func(in ssa.Instruction) {
+				if cc := callCommon(in); cc != nil && strings.HasSuffix(calleeName(cc), "CellBuffer).Invalidate") {
+					if instrDominates(st, in) || instrDominates(in, st) {
+						paired = true
+					}
+				}
+			})
+			c.Check(paired, rule, fmt.Sprintf("%s.%s:clear-with-invalidate#%d", tname, f.Name(), n), p.pos(st.Pos()), "the request to wipe the display comes with cells.Invalidate() on the same path")
+		}
+	}
+	if n == 0 {
+		c.Undecided(rule, tname+":clear", "-", "no place raises the clear flag")
+	}
+}
+
+// checkViewPortPaintsThroughSetContent: a ViewPort reaches its parent only inside its own rectangle
+// because everything it paints goes through the parent's SetContent at translated coordinates.  A
+// parent operation without coordinates (Fill, Clear) paints the parent's whole window, whatever the
+// port's origin or the parent's scroll offset.  Every method the ViewPort invokes on its parent view
+// is SetContent or a query (Size).
+func checkViewPortPaintsThroughSetContent(c *Ctx, p *Prog, rule string) {
+	views := p.Views
+	if views == nil {
+		c.Undecided(rule, "package views", "-", "not loaded")
+		return
+	}
+	n, bad := 0, ""
+	for _, f := range p.modFns {
+		if f.Pkg != views || recvTypeName(topFunc(f)) != "views.ViewPort" {
+			continue
+		}
+		eachInstr(f, func(in ssa.Instruction) {
+			cc := callCommon(in)
+			if cc == nil || !cc.IsInvoke() {
+				return
+			}
+			ref, _, ok := loadedField(cc.Value)
+			if !ok || ref.Owner != "views.ViewPort" {
+				return
+			}
+			n++
+			switch cc.Method.Name() {
+			case "SetContent", "Size":
+			default:
+				bad += f.Name() + " calls the parent's " + cc.Method.Name() + " at " + p.pos(in.Pos()) + "; "
+			}
+		})
+	}
+	c.Check(n >= 2 && bad == "", rule, "ViewPort:paints-through-SetContent-only", "-", fmt.Sprintf("%d calls on the parent view, each SetContent (translated, C20-R2) or Size %s", n, bad))
+}
+
+// checkWidePaddingFromMainRune: a wide cell whose rune went out as a narrow substitute is padded with
+// a blank; whether it did is a fact about the main rune.  When the test under `width > 1` reads a flag
+// that an encoder call reported, every call that can have produced the flag encodes the cell's main
+// rune — not a combining rune of the loop that follows (an elided mark would pad a cell whose wide
+// rune was written in full: three columns for two).
+func checkWidePaddingFromMainRune(c *Ctx, p *Prog, rule string) {
+	dc := p.Fn("tcell:(*tScreen).drawCell")
+	if dc == nil {
+		c.Undecided(rule, "tScreen.drawCell", "-", "not found")
+		return
+	}
+	// the cell's content: GetContent's results
+	var mainc, width ssa.Value
+	eachInstr(dc, func(in ssa.Instruction) {
+		if ex, ok := in.(*ssa.Extract); ok {
+			if call, isCall := ex.Tuple.(*ssa.Call); isCall && strings.HasSuffix(calleeName(&call.Call), "CellBuffer).GetContent") {
+				switch ex.Index {
+				case 0:
+					mainc = ex
+				case 3:
+					width = ex
+				}
+			}
+		}
+	})
+	if mainc == nil || width == nil {
+		c.Undecided(rule, "tScreen.drawCell:wide-padding", p.pos(dc.Pos()), "the cell's rune and width (GetContent) not found")
+		return
+	}
+	isWide := func(g rawGuard) bool {
+		bo, ok := g.Cond.(*ssa.BinOp)
+		if !ok || !g.Positive {
+			return false
+		}
+		k, isK := constInt(bo.Y)
+		isW := false
+		for _, src := range append(phiSources(bo.X), derefCell(bo.X)) {
+			if src == width {
+				isW = true
+			}
+		}
+		return isK && isW && ((bo.Op == token.GTR && k == 1) || (bo.Op == token.GEQ && k == 2))
+	}
+	n, bad := 0, ""
+	seen := map[ssa.Value]bool{}
+	for _, b := range dc.Blocks {
+		gs := rawGuardsAt(b)
+		wide := false
+		for _, g := range gs {
+			if isWide(g) {
+				wide = true
+			}
+		}
+		if !wide {
+			continue
+		}
+		for _, g := range gs {
+			cond := g.Cond
+			for {
+				if u, ok := cond.(*ssa.UnOp); ok && u.Op == token.NOT {
+					cond = u.X
+					continue
+				}
+				break
+			}
+			if seen[cond] {
+				continue
+			}
+			seen[cond] = true
+			for _, src := range append(phiSources(cond), cond) {
+				ex, ok := derefCell(src).(*ssa.Extract)
+				if !ok {
+					continue
+				}
+				call, isCall := ex.Tuple.(*ssa.Call)
+				if !isCall {
+					continue
+				}
+				h := call.Call.StaticCallee()
+				if h == nil || h.Pkg != p.Tcell {
+					continue
+				}
+				// an encoder call: it takes a rune
+				var runeArg ssa.Value
+				for i, par := range h.Params {
+					if bt, isB := par.Type().Underlying().(*types.Basic); isB && bt.Kind() == types.Int32 && i < len(call.Call.Args) {
+						runeArg = call.Call.Args[i]
+					}
+				}
+				if runeArg == nil {
+					continue
+				}
+				n++
+				fromMain := true
+				for _, rs := range append(phiSources(runeArg), derefCell(runeArg)) {
+					if _, isPhi := rs.(*ssa.Phi); isPhi {
+						continue
+					}
+					if rs != mainc {
+						fromMain = false
+					}
+				}
+				if !fromMain {
+					bad += "the flag tested at " + p.pos(b.Instrs[0].Pos()) + " may come from encoding " + valName(runeArg) + " (" + p.pos(call.Pos()) + "), not the main rune; "
+				}
+			}
+		}
+	}
+	if n == 0 {
+		c.Trivial(rule, "tScreen.drawCell:wide-padding-from-main-rune", p.pos(dc.Pos()), "the padding test under width > 1 reads no flag reported by an encoder call (it looks at the bytes written)")
+		return
+	}
+	c.Check(bad == "", rule, "tScreen.drawCell:wide-padding-from-main-rune", p.pos(dc.Pos()), fmt.Sprintf("%d encoder call(s) can have produced the flag tested under width > 1, each for the main rune %s", n, bad))
 }
